@@ -9,7 +9,7 @@
   *which arguments*.
 
   The only arithmetic in the function is the replication that enforces the minimum-image convention:
-  `np.ceil(2*mic / np.diag(atoms.cell))`, exact here over `Rat` (`Rat.ceil`).  It needs the cell of the structure
+  `np.maximum(1, np.ceil(2*mic / np.diag(atoms.cell)))`, exact here over `Rat` (`Rat.ceil`).  It needs the cell of the structure
   as loaded (after an `--extract-uc` override): that is the second argument of `plan`.
 -/
 import MofunModel.Model.Basic
@@ -104,10 +104,10 @@ deriving DecidableEq, Repr, Inhabited
 
 /-! ## the minimum-image replication factors -/
 
-/-- `ceil(2·mic / a)` for one diagonal entry -/
-def micDim (mic a : Rat) : Int := Rat.ceil (2 * mic / a)
+/-- `max(1, ceil(2·mic / a))` for one diagonal entry: at least one copy in every direction -/
+def micDim (mic a : Rat) : Int := max 1 (Rat.ceil (2 * mic / a))
 
-/-- `np.array(np.ceil(2*mic / np.diag(cell)), dtype=int)` -/
+/-- `np.maximum(1, np.array(np.ceil(2*mic / np.diag(cell)), dtype=int))` -/
 def micDims (mic : Rat) (d : Rat × Rat × Rat) : Int × Int × Int :=
   (micDim mic d.1, micDim mic d.2.1, micDim mic d.2.2)
 
